@@ -652,4 +652,22 @@ theorem parseInt_intToStr (signed : Bool) (lo hi v : Int) (hlo : lo ≤ v) (hhi 
         simp only [parseInt, hd.1, hd.2, false_and, or_self, if_false, hpd, hv']
         simp [hlo, hhi]
 
+/-! ### `nth` -/
+
+theorem nextN_succ' (sh : Shape) : ∀ (k : Nat) (st : DeState), nextN sh (k + 1) st = (next (nextN sh k st) sh).2
+  | 0, _ => rfl
+  | k + 1, st => by rw [nextN, nextN_succ' sh k]; rfl
+
+theorem nth_eq (sh : Shape) : ∀ (n : Nat) (st : DeState), nth st sh n = next (nextN sh n st) sh
+  | 0, _ => rfl
+  | n + 1, st => by rw [nth, nth_eq sh n]; rfl
+
+theorem items_getElem? (sh : Shape) : ∀ (k : Nat) (st : DeState) (j : Nat), j < k →
+    (items sh k st)[j]? = some (next (nextN sh j st) sh).1
+  | 0, _, _, h => by omega
+  | k + 1, st, 0, _ => by simp [items, nextN]
+  | k + 1, st, j + 1, h => by
+    simp only [items, List.getElem?_cons_succ]
+    rw [items_getElem? sh k _ j (by omega)]; rfl
+
 end De
